@@ -213,9 +213,9 @@ def boundary_values(sd, r, rng, extra=6):
     return sorted(v for v in s if lo <= v <= hi)
 
 
-def iter_scripts(n, rng, count, splits_upto=5):
+def iter_scripts(n, rng, count, splits_upto=5, ord_items=False):
     """operation scripts for an iterator with n items"""
-    fins = ["fold", "rfold", "last", "count", "collect", "rev"]
+    fins = ["fold", "rfold", "last", "count", "collect", "rev"] + (["min", "max"] if ord_items else [])
     out = []
     if n <= splits_upto:
         for k in range(n + 2):
@@ -332,11 +332,12 @@ class OpGen:
                 for x in strs:
                     self.op(k, hexname(x))
         # iterators
+        ord_enum = "Ord" in self.s.derives
         if "iter" in feats:
-            for sc in iter_scripts(len(vals), rng, iter_count):
+            for sc in iter_scripts(len(vals), rng, iter_count, ord_items=ord_enum):
                 self.op("iter", *sc)
         if "names" in feats:
-            for sc in iter_scripts(len(vals), rng, max(2, iter_count // 2), splits_upto=3):
+            for sc in iter_scripts(len(vals), rng, max(2, iter_count // 2), splits_upto=3, ord_items=True):
                 self.op("names", *sc)
         if "range" in feats:
             plim = pairs_limit if pairs_limit is not None else (9 if thorough else 6)
@@ -353,7 +354,7 @@ class OpGen:
                 pairs = sorted(pairs)
             for (a, b) in pairs:
                 cnt = len([v for v in vals if a <= v <= b])
-                scs = [[";", "collect"], ["l", "h", ";", "rev"]]
+                scs = [[";", "collect"], ["l", "h", ";", "rev"]] + ([[";", "min"], ["n", ";", "max"]] if ord_enum and cnt <= 6 else [])
                 scs += iter_scripts(cnt, rng, 1 if not thorough else 3, splits_upto=0)[-(1 if not thorough else 3):]
                 if cnt <= 3:
                     scs += iter_scripts(cnt, rng, 0, splits_upto=3)[:6]
@@ -390,6 +391,10 @@ class Corpus:
         return f"{fam}{self._k}"
 
     def add(self, s: Subject, group=None, **opkw):
+        # about a third of the enums also derive the comparison traits, so that `min()` / `max()` can be called on their iterators
+        import zlib
+        if s.kind == "enum" and zlib.crc32(s.sid.encode()) % 3 == 0 and "Ord" not in s.derives:
+            s.derives += ", PartialEq, Eq, PartialOrd, Ord"
         self.subjects.append(s)
         self.ops[s.sid] = OpGen(s, self.rng, self.tier).generate(**opkw)
         if group is not None:
@@ -429,6 +434,11 @@ class Corpus:
         for r in ("i64", "i128", "isize"):
             wide = sorted({rng.randint(-(1 << 63), (1 << 63) - 1) for _ in range(14)} | {-(1 << 63) + 1, (1 << 63) - 2, -1, 0})
             self.add_decl("R", r, wide, ["table", "match"], note="wide spread over i64")
+        # the same spans under all-auto configurations (what `auto` picks depends on sizes; the heuristics must not overflow)
+        self.add_decl("R", "i64", [-(1 << 63), 0, (1 << 63) - 1], ["auto", "subset"], note="i64 extremes, auto")
+        self.add_decl("R", "i128", [-(1 << 62), 0, 1 << 62], ["auto", "subset"], note="span 2^63 in i128, auto")
+        self.add_decl("R", "isize", [-(1 << 63), (1 << 63) - 1], ["auto", "subset"], note="two variants at the isize limits, auto")
+        self.add_decl("R", "i64", [-2, (1 << 63) - 1], ["auto", "table"], note="neighbours 2^63 apart")
         # discriminants congruent modulo a narrower width: a sort key narrowed by a cast ties them
         self.add_decl("R", "i64", [k * (1 << 32) + 0x10 for k in range(-3, 4)], ["table", "match"], note="congruent mod 2^32")
         self.add_decl("R", "i32", [k * (1 << 16) + 7 for k in range(-4, 5)], ["table", "auto"], note="congruent mod 2^16")
